@@ -614,7 +614,12 @@ def prep_warp(case):
     if case["level"] > 0:
         tgt = tgt + case["level"] * case["extent"] * gen.arr(case["noise"])
     base, _, opt = case["kind"].partition(":")
-    tgt_pc = PointCloud(tgt)
+    if case.get("tgt_int"):
+        # target landmarks given as integer pixel positions (a legal input): rounded, stored as int64
+        tgt = np.round(tgt)
+        tgt_pc = PointCloud(tgt.astype(np.int64))
+    else:
+        tgt_pc = PointCloud(tgt)
     trilist = None
     if base == "TPS":
         src_pc = PointCloud(src)
@@ -732,6 +737,8 @@ def s_pwa_affine():
             )
         )
         case["edges"] = draw(st.lists(st.tuples(st.integers(0, 63), gen.q(0.05, 0.95)).map(list), min_size=1, max_size=5))
+        case["tgt_int"] = draw(st.sampled_from([False, False, True]))
+        case["batch"] = draw(st.sampled_from([None, None, 1, 2, 3, 5]))
         return case
 
     return s()
@@ -774,7 +781,8 @@ def c_pwa_affine(case, ctx):
         owner.append(k)
     if pts:
         pts = np.array(pts)
-        got = a.apply(pts)
+        got = a.apply(pts, batch_size=case.get("batch"))
+        ctx.event("target dtype=%s batch=%s" % (np.asarray(a.target.points).dtype, case.get("batch")))
         want = np.array([R.bary_map(src[tl[k]], tgt[tl[k]], p) for k, p in zip(owner, pts)])
         ctx.expect(
             close(got, want, rtol=tol, scale=sc),
@@ -934,6 +942,15 @@ def c_bookkeeping(case, ctx):
     dd = digest.digest_diff(d_t, digest.digest(tgt_obj))
     ctx.expect(dd is None, "bookkeeping.constructor_mutated_target." + name, lambda: repr(dd))
     err = check_bookkeeping(ctx, a, name, src_obj, tgt_obj, src, tgt, sc)
+    if "spec" in case:
+        # a sibling derived from this alignment (a copy) is fitted to another target: everything reported by THIS
+        # alignment must stay what it was
+        sib = a.copy()
+        sib.set_target(PointCloud(tgt[::-1] * 1.3 + 0.7))
+        check_bookkeeping(ctx, a, name, src_obj, tgt_obj, src, tgt, sc, prefix="bookkeeping_after_sibling_retarget")
+        want_a = build_alignment(spec, PointCloud(src.copy()), PointCloud(tgt.copy()))
+        ctx.expect(close(a.h_matrix, want_a.h_matrix, rtol=1e-12, scale=1.0 + float(np.abs(want_a.h_matrix).max())),
+                   "bookkeeping_after_sibling_retarget.map_changed." + name, lambda: describe(a.h_matrix, want_a.h_matrix))
     resid = math.sqrt(R.sse(a.apply(src), tgt))
     ctx.event("residual %s" % ("> 0" if resid > 1e-6 * sc else "~ 0"))
     ctx.nontrivial(resid > 1e-6 * sc or (err is not None and "spec" not in case and maxdiff(src, tgt) > 1e-3 * sc))
